@@ -245,6 +245,37 @@ def rand_worker(arg: tuple) -> dict:
                     res["fails"].append(("sv:lindbladian:batched-path:dense-mismatch", f"batched branch: max |L@rho - i*Lindblad(rho)| = {errb:.3e} (budget {bud:.1e}), N={n}", desc))
                 if float(np.abs(gotb - got).max()) > bud:
                     res["fails"].append(("sv:lindbladian:cpu-vs-batched-differ", f"CPU and batched branches differ by {float(np.abs(gotb - got).max()):.3e}, N={n}", desc))
+            # the same parameter tensors, updated IN PLACE, handed to a second construction (an optimiser step, a time loop that
+            # reuses its buffers): the second operator must represent the CURRENT values, whatever an earlier construction saw
+            if n <= 5 and idx % 3 == 0:
+                from emu_sv.hamiltonian import RydbergHamiltonian
+                from emu_sv.lindblad_operator import RydbergLindbladian
+                cd = torch.complex128
+                t_om, t_de, t_ph = (torch.tensor(c[k], dtype=cd) for k in ("omega", "delta", "phi"))
+                t_U = torch.tensor(U, dtype=torch.float64)
+                t_j = [torch.tensor(j, dtype=cd) for j in jumps]
+                dev = torch.device("cpu")
+                RydbergHamiltonian(omegas=t_om, deltas=t_de, phis=t_ph, interaction_matrix=t_U, device=dev)
+                RydbergLindbladian(omegas=t_om, deltas=t_de, phis=t_ph, pulser_lindblads=t_j, interaction_matrix=t_U, device=dev)
+                t_U.mul_(1.75)
+                t_om.mul_(0.5)
+                t_de.add_(0.375)
+                H2ref = dense.hamiltonian(np.real(t_om.numpy()), np.real(t_de.numpy()), np.real(t_ph.numpy()), t_U.numpy(), "rydberg", 2)
+                v2 = rng.normal(size=D) + 1j * rng.normal(size=D)
+                H2 = RydbergHamiltonian(omegas=t_om, deltas=t_de, phis=t_ph, interaction_matrix=t_U, device=dev)
+                e2 = float(np.abs((H2 * torch.tensor(v2, dtype=cd)).numpy() - H2ref @ v2).max())
+                b2 = 1e-13 * (1 + 2 * hs) * float(np.abs(v2).max())
+                if e2 > b2:
+                    res["fails"].append(("sv:hamiltonian:stale-values-after-in-place-update", f"second construction from tensors updated in place: max |H*v - H_dense v| = {e2:.3e} (budget {b2:.1e}), N={n}", desc))
+                a2 = rng.normal(size=(D, D)) + 1j * rng.normal(size=(D, D))
+                rho2 = (a2 + a2.conj().T) / 2
+                Ls2 = dense.all_site_ops(jumps, n, 2) if jumps else []
+                L2 = RydbergLindbladian(omegas=t_om, deltas=t_de, phis=t_ph, pulser_lindblads=t_j, interaction_matrix=t_U, device=dev)
+                e3 = float(np.abs((L2 @ torch.tensor(rho2, dtype=cd)).numpy() - 1j * dense.lindblad_rhs(H2ref, Ls2, rho2)).max())
+                js2 = sum(float(np.abs(j).sum()) ** 2 for j in jumps)
+                b3 = 1e-13 * (1 + 4 * hs + 2 * n * js2) * float(np.abs(rho2).max()) * 4
+                if e3 > b3:
+                    res["fails"].append(("sv:lindbladian:stale-values-after-in-place-update", f"second construction from tensors updated in place: max |L@rho - i*Lindblad(rho)| = {e3:.3e} (budget {b3:.1e}), N={n}", desc))
             # the 2x2 batched product itself
             left = torch.tensor(rng.normal(size=(2, 2)) + 1j * rng.normal(size=(2, 2)), dtype=torch.complex128)
             right = torch.tensor(rng.normal(size=(2 ** int(rng.integers(0, 5)), 2, 2 ** int(rng.integers(0, 6)))) * (1 + 0j), dtype=torch.complex128)
